@@ -53,6 +53,14 @@ def _init_table(ix, cls):
                 table[loc] = _Inl().visit(_copy.deepcopy(st.value)) if ldefs else st.value
                 if isinstance(st.value, ast.List) and not st.value.elts:
                     appended[loc] = 0
+                # self.x = [E for _ in range(K)] with a literal K: K containers, each built by E
+                v_ = st.value
+                if isinstance(v_, ast.ListComp) and len(v_.generators) == 1 and not v_.generators[0].ifs and isinstance(v_.generators[0].iter, ast.Call) \
+                        and getattr(v_.generators[0].iter.func, 'id', None) == 'range' and len(v_.generators[0].iter.args) == 1 \
+                        and isinstance(v_.generators[0].iter.args[0], ast.Constant) and isinstance(v_.generators[0].iter.args[0].value, int) \
+                        and not any(isinstance(x_, ast.Name) and x_.id == getattr(v_.generators[0].target, 'id', None) for x_ in ast.walk(v_.elt)):
+                    for i_ in range(v_.generators[0].iter.args[0].value):
+                        table['%s[%d]' % (loc, i_)] = _Inl().visit(_copy.deepcopy(v_.elt)) if ldefs else v_.elt
         elif isinstance(st, ast.Expr) and isinstance(st.value, ast.Call) and isinstance(st.value.func, ast.Attribute):
             c = st.value
             if c.func.attr == 'append':
@@ -94,7 +102,20 @@ def _is_constant_expr(e, local_consts):
 def _refills(reset_node):
     """loops ``for _ in range(M): <loc>.append(const)`` in reset -> {loc: M expr}"""
     out = {}
+    # locals of reset() bound once (`size = self.end + 1`) stand for their expression
+    import copy as _copy
+    ldefs = {}
     for st in reset_node.body:
+        if isinstance(st, ast.Assign) and len(st.targets) == 1 and isinstance(st.targets[0], ast.Name):
+            ldefs.setdefault(st.targets[0].id, []).append(st.value)
+
+    class _Inl(ast.NodeTransformer):
+        def visit_Name(self, n_):
+            if isinstance(n_.ctx, ast.Load) and len(ldefs.get(n_.id, [])) == 1 and not isinstance(ldefs[n_.id][0], ast.Call):
+                return ast.copy_location(self.visit(_copy.deepcopy(ldefs[n_.id][0])), n_)
+            return n_
+    body_ = [_Inl().visit(_copy.deepcopy(st)) if ldefs else st for st in reset_node.body]
+    for st in body_:
         # <loc>.extend([const] * M)  /  <loc>.extend(const for _ in range(M))
         if isinstance(st, ast.Expr) and isinstance(st.value, ast.Call) and isinstance(st.value.func, ast.Attribute) and st.value.func.attr == 'extend' \
                 and len(st.value.args) == 1 and not st.value.keywords:
